@@ -27,7 +27,10 @@ var zzC16Pages = []string{
 	// of a chain; the surrounding markup is instantiated once per group / kind
 	/* 11 */ `<section v-for="g in groups"><li v-for="x in g">{{ x }}</li><p v-else v-once>AAA</p></section>`,
 	/* 12 */ `<div v-for="k in kinds"><p v-if="k == 1">one</p><p v-else-if="k == 2" v-once>BBB</p><p v-else v-once>AAA</p></div>`,
+	/* 14 is appended below */
 	/* 13 */ `<div v-for="k in kinds"><p v-if="k == 2" v-once>BBB</p><p v-else-if="k == 3" v-once>AAA</p><i v-else>one</i></div>`,
+	// attribute names are case-insensitive in HTML: V-Once is v-once
+	/* 14 */ `<div><template include="caps.vuego"></template><p V-Once>EEE</p><template include="caps.vuego"></template><template include="d.vuego"></template></div>`,
 }
 
 // expected number of occurrences of each marker
@@ -46,6 +49,7 @@ var zzC16Want = []map[string]int{
 	nil, // 11 to 13: computed from the data
 	nil,
 	nil,
+	{"AAA": 1, "BBB": 1, "EEE": 1, "DDD": 1},
 }
 
 // other directives the marked element may carry
@@ -56,6 +60,7 @@ func zzC16FS(extra string) *zzFS {
 		"c.vuego":     `<em v-once>CCC</em><q>c</q>`,
 		"d.vuego":     `<s v-once>DDD</s>`,
 		"e.vuego":     `<s v-once EXTRA>EEE</s>`,
+		"caps.vuego":  `<section><style V-Once>.AAA{}</style><b V-ONCE>BBB</b></section>`,
 		"wrapd.vuego": `<section>WWW<template include="d.vuego"></template></section>`,
 		"slotc.vuego": `<section>SSS<slot></slot></section>`,
 	}
@@ -77,7 +82,7 @@ func VerifC16_Once() {
 	fsys := zzC16FS(extra)
 	data := map[string]any{"items": []int{1, 2, 3}, "yes": true, "t": "T"}
 	want := zzC16Want[k]
-	if k >= 11 {
+	if k >= 11 && k <= 13 {
 		// which instantiations select the marked branch is arbitrary
 		want = map[string]int{"AAA": 0, "BBB": 0}
 		var groups, kinds []any
